@@ -321,14 +321,25 @@ def harnesses(tier):
     else:
         cfgs = [(3, 1, OPS), (2, 2, OPS), (3, 2, ['store', 'uidstore', 'expunge', 'uidexpunge', 'move', 'append']),
                 (2, 3, ['store', 'expunge', 'move', 'append'])]
-    return [Harness('program[m=%d,d=%d,ops=%d]' % (m, d, len(ops)), _harness(m, d, ops),
-                    {'initial_messages': m, 'program_length': d, 'ops': ops,
-                     'set_numbers': 'symbolic 1..%d / UID window' % (m + d + 2)},
-                    replay='program', task_budget=40) for m, d, ops in cfgs]
+    from checks import c04_maildir
+    if '_mg' not in _g:
+        _g['_mg'] = c04_maildir.bindings()
+    md = [Harness('maildir_move_copy_histories', c04_maildir.history_harness(_g['_mg']),
+                  {'histories': c04_maildir.HISTORIES, 'next_uid': 'symbolic',
+                   'oracle': 'the operation returns; every message file is listed under exactly one UID'},
+                  replay='mdhistory', task_budget=60)]
+    return md + [Harness('program[m=%d,d=%d,ops=%d]' % (m, d, len(ops)), _harness(m, d, ops),
+                         {'initial_messages': m, 'program_length': d, 'ops': ops,
+                          'set_numbers': 'symbolic 1..%d / UID window' % (m + d + 2)},
+                         replay='program', task_budget=40) for m, d, ops in cfgs]
 
 
 def replay(harness, w):
     from checks import _sim
+    if harness == 'mdhistory':
+        from checks import c04_maildir
+        bad = c04_maildir.history_replay(w)
+        return {'violates': bool(bad), 'detail': bad[:3], 'category': 'maildir: ' + (bad[0] if bad else '')[:60]}
     g = _sim.bindings()
     bad = []
 
@@ -351,8 +362,4 @@ def replay(harness, w):
 
 
 def classify(harness, w, res):
-    d = ' '.join(map(str, res.get('detail') or []))
-    for op, a in w['script']:
-        if op == 'append' and 'R' in a.get('flags', ''):
-            return 'C10-append-recent-flag'
     return None
